@@ -20,7 +20,9 @@
 static const unsigned long sizes[] = { 1, 8, 9, 24, 25, 256, 257, 264, 4000, 4096, 5000, 70000 };
 #define NS 12
 #define MAXSLOT 6
-typedef struct { unsigned char *p; unsigned long req; unsigned char fill; int code; int rooted; uintptr_t hidden; int szi; } Slot;
+/* p is the root word the collector can see: the block address, an interior address (interior=1), or 0 (dropped, or held
+ * only through the first word of the parent block); hidden always holds the disguised true address */
+typedef struct { unsigned char *p; unsigned long req; unsigned char fill; int code; int rooted; uintptr_t hidden; int szi; int parent; int interior; int haschild; } Slot;
 static Slot slot[MAXSLOT];
 static int nslot = 0, maxslots = 3;
 static int path[64], plen = 0;
@@ -32,7 +34,27 @@ static Shared *sh;
 static volatile uint64_t *visited; static uint64_t vmask;
 
 #define HIDE(p) (((uintptr_t)(p)) ^ 0x5a5a5a5a5a5aUL)
-static unsigned char *sptr(Slot *s) { return s->rooted ? s->p : (unsigned char *) HIDE(s->hidden); }
+static unsigned char fillfor(int si, int szi, int rooted) { return (unsigned char)(0x31 + 37 * si + 11 * szi + (rooted ? 0 : 5)); }
+static unsigned char *sptr(Slot *s) { return (unsigned char *) HIDE(s->hidden); }
+static int live(int i) { int n = 0; while (i >= 0 && n++ < MAXSLOT + 1) { if (slot[i].rooted) return 1; i = slot[i].parent; } return 0; }
+/* remove slot i from the model (its block was freed or may have been collected); the last slot moves into its place */
+static void drop_slot(int i)
+{
+	int j, last = nslot - 1;
+	for (j = 0; j < nslot; j++) if (slot[j].parent == i) slot[j].parent = -1;
+	if (slot[i].parent >= 0) slot[slot[i].parent].haschild = 0;
+	slot[i] = slot[last];
+	memset(&slot[last], 0, sizeof(Slot)); slot[last].parent = -1;
+	nslot--;
+	if (i < nslot) {
+		Slot *s = &slot[i];
+		for (j = 0; j < nslot; j++) if (slot[j].parent == last) slot[j].parent = i;
+		/* keep fill a function of (slot index, size): rewrite the moved block if the model still owns it */
+		if (!live(i)) return;           /* an unreachable block may already be gone: never touch it */
+		s->fill = fillfor(i, s->szi, s->rooted);
+		memset(sptr(s) + (s->haschild ? sizeof(Pointer) : 0), s->fill, s->req - (s->haschild ? sizeof(Pointer) : 0));
+	}
+}
 
 static void fail(const char *msg)
 {
@@ -47,7 +69,6 @@ static void fail(const char *msg)
 static void on_crash(int sig) { char m[40]; snprintf(m, sizeof m, "crash-signal-%d", sig); fail(m); }
 static MostAlignedType *sto_err(int e) { char m[40]; snprintf(m, sizeof m, "storage-error-%d", e); fail(m); return 0; }
 
-static unsigned char fillfor(int si, int szi, int rooted) { return (unsigned char)(0x31 + 37 * si + 11 * szi + (rooted ? 0 : 5)); }
 
 /* oracle on the whole state */
 static void check_all(void)
@@ -60,7 +81,8 @@ static void check_all(void)
 		if (sz < s->req) fail("size-smaller-than-requested");
 		if (((uintptr_t) p) % sizeof(MostAlignedType)) fail("misaligned");
 		if (!isInHeap(p)) fail("outside-heap");
-		for (k = 0; k < s->req; k++) if (p[k] != s->fill) fail("live-block-content-changed");
+		for (k = s->haschild ? sizeof(Pointer) : 0; k < s->req; k++) if (p[k] != s->fill) fail("live-block-content-changed");
+		if (s->parent >= 0 && *(unsigned char **) sptr(&slot[s->parent]) != p) fail("live-block-content-changed");
 		if (stoCode(p) != (unsigned) s->code) fail("code-lost");
 		for (j = 0; j < i; j++) {
 			unsigned char *q = sptr(&slot[j]);
@@ -72,77 +94,99 @@ static void check_all(void)
 }
 
 /* ---- operations ------------------------------------------------------------------------------ */
-/* op encoding: [0,NS) alloc rooted size k; [NS,2NS) alloc dropped; then free slot i; resize slot i to size k; gc; recode slot i */
-static int nops(void) { return 2 * NS + MAXSLOT + MAXSLOT * NS + 1 + MAXSLOT; }
+/* op encoding: [0,NS) alloc rooted size k; [NS,2NS) alloc dropped; then free slot i; resize slot i to size k; gc; recode slot i;
+ * then alloc size k held only by the first word of slot i (heap-to-heap reference); then turn the root of slot i into an
+ * interior pointer (middle of the block) */
+#define OP_FREE   (2 * NS)
+#define OP_RESIZE (OP_FREE + MAXSLOT)
+#define OP_GC     (OP_RESIZE + MAXSLOT * NS)
+#define OP_RECODE (OP_GC + 1)
+#define OP_CHILD  (OP_RECODE + MAXSLOT)
+#define OP_INTER  (OP_CHILD + MAXSLOT * NS)
+#define OP_END    (OP_INTER + MAXSLOT)
+static int nops(void) { return OP_END; }
 static void decode(int op, int *kind, int *a, int *b)
 {
 	*a = *b = 0;
 	if (op < NS) { *kind = 0; *a = op; }
-	else if (op < 2 * NS) { *kind = 1; *a = op - NS; }
-	else if (op < 2 * NS + MAXSLOT) { *kind = 2; *a = op - 2 * NS; }
-	else if (op < 2 * NS + MAXSLOT + MAXSLOT * NS) { *kind = 3; *a = (op - 2 * NS - MAXSLOT) / NS; *b = (op - 2 * NS - MAXSLOT) % NS; }
-	else if (op == 2 * NS + MAXSLOT + MAXSLOT * NS) { *kind = 4; }
-	else { *kind = 5; *a = op - (2 * NS + MAXSLOT + MAXSLOT * NS + 1); }
+	else if (op < OP_FREE) { *kind = 1; *a = op - NS; }
+	else if (op < OP_RESIZE) { *kind = 2; *a = op - OP_FREE; }
+	else if (op < OP_GC) { *kind = 3; *a = (op - OP_RESIZE) / NS; *b = (op - OP_RESIZE) % NS; }
+	else if (op == OP_GC) { *kind = 4; }
+	else if (op < OP_CHILD) { *kind = 5; *a = op - OP_RECODE; }
+	else if (op < OP_INTER) { *kind = 6; *a = (op - OP_CHILD) / NS; *b = (op - OP_CHILD) % NS; }
+	else { *kind = 7; *a = op - OP_INTER; }
 }
 static int enabled(int op)
 {
 	int kind, a, b;
 	decode(op, &kind, &a, &b);
 	if (kind == 0 || kind == 1) return nslot < maxslots;
-	if (kind == 2 || kind == 3 || kind == 5) return a < nslot && slot[a].rooted && !(kind == 3 && slot[a].szi == b);
+	if (kind == 2 || kind == 5) return a < nslot && slot[a].rooted;
+	if (kind == 3) return a < nslot && slot[a].rooted && slot[a].szi != b && !(slot[a].haschild && sizes[b] < sizeof(Pointer));
+	if (kind == 6) return nslot < maxslots && a < nslot && live(a) && !slot[a].haschild && slot[a].req >= sizeof(Pointer);
+	if (kind == 7) return a < nslot && slot[a].rooted && !slot[a].interior && slot[a].req > 1;
 	return 1;
 }
-static void apply(int op)
+/* overwrite the dead part of the stack (and, through the call, the caller-saved registers) so that stale copies of block
+ * addresses left by earlier calls do not keep unreachable blocks alive by accident: the model must be the only reason a
+ * block survives, otherwise a collector that fails to trace heap-to-heap references goes unnoticed */
+static void __attribute__((noinline)) scrub_stack(void)
+{
+	volatile char pad[48 * 1024];
+	unsigned i;
+	for (i = 0; i < sizeof pad; i++) pad[i] = 0;
+}
+static void __attribute__((noinline)) apply(int op)
 {
 	int kind, a, b, i;
 	decode(op, &kind, &a, &b);
-	if (kind == 0 || kind == 1) {
+	if (kind == 0 || kind == 1 || kind == 6) {
 		Slot *s = &slot[nslot];
 		unsigned char *p;
-		s->req = sizes[a]; s->szi = a; s->code = 1 + (a + nslot) % 5; s->rooted = (kind == 0);
-		s->fill = fillfor(nslot, a, s->rooted);
+		int szi = kind == 6 ? b : a;
+		s->req = sizes[szi]; s->szi = szi; s->code = 1 + (szi + nslot) % 5; s->rooted = (kind == 0);
+		s->parent = -1; s->interior = 0; s->haschild = 0;
+		s->fill = fillfor(nslot, szi, s->rooted);
 		p = (unsigned char *) stoAlloc(s->code, s->req);
 		if (!p) fail("alloc-returned-null");
 		/* must not overlap any live block BEFORE we write to it */
 		for (i = 0; i < nslot; i++) { unsigned char *q = sptr(&slot[i]); if (!(p + s->req <= q || q + slot[i].req <= p)) fail("alloc-returned-live-memory"); }
 		memset(p, s->fill, s->req);
-		if (s->rooted) { s->p = p; s->hidden = 0; } else { s->hidden = HIDE(p); s->p = 0; }
+		s->hidden = HIDE(p);
+		s->p = s->rooted ? p : 0;
+		if (kind == 6) { s->parent = a; slot[a].haschild = 1; *(unsigned char **) sptr(&slot[a]) = p; }
 		p = 0;
 		nslot++;
 	}
 	else if (kind == 2) {
-		stoFree(slot[a].p);
-		slot[a] = slot[nslot - 1];
-		memset(&slot[nslot - 1], 0, sizeof(Slot));
-		nslot--;
-		if (a < nslot) {        /* keep fill a function of (slot index, size): rewrite moved block */
-			Slot *s = &slot[a]; s->fill = fillfor(a, s->szi, s->rooted); memset(sptr(s), s->fill, s->req);
-		}
+		stoFree(sptr(&slot[a]));
+		drop_slot(a);
 	}
 	else if (kind == 3) {
 		Slot *s = &slot[a];
-		unsigned long nreq = sizes[b], k, common = s->req < nreq ? s->req : nreq;
-		unsigned char *np = (unsigned char *) stoResize(s->p, nreq);
+		unsigned long nreq = sizes[b], k, common = s->req < nreq ? s->req : nreq, skip = s->haschild ? sizeof(Pointer) : 0;
+		unsigned char *np = (unsigned char *) stoResize(sptr(s), nreq);
 		if (!np) fail("resize-returned-null");
-		for (k = 0; k < common; k++) if (np[k] != s->fill) fail("resize-lost-prefix");
+		for (k = skip; k < common; k++) if (np[k] != s->fill) fail("resize-lost-prefix");
+		if (s->haschild) for (i = 0; i < nslot; i++) if (slot[i].parent == a && *(unsigned char **) np != sptr(&slot[i])) fail("resize-lost-prefix");
 		for (i = 0; i < nslot; i++) if (i != a) { unsigned char *q = sptr(&slot[i]); if (!(np + nreq <= q || q + slot[i].req <= np)) fail("resize-returned-live-memory"); }
-		s->p = np; s->req = nreq; s->szi = b; s->fill = fillfor(a, b, 1);
-		memset(np, s->fill, nreq);
+		s->p = np; s->hidden = HIDE(np); s->interior = 0; s->req = nreq; s->szi = b; s->fill = fillfor(a, b, 1);
+		memset(np + skip, s->fill, nreq - skip);
 	}
 	else if (kind == 4) {
+		scrub_stack();
 		stoGc();
-		/* dropped blocks may now be gone: forget them (never required to be reclaimed) */
-		for (i = 0; i < nslot; ) {
-			if (!slot[i].rooted) {
-				slot[i] = slot[nslot - 1]; memset(&slot[nslot - 1], 0, sizeof(Slot)); nslot--;
-				if (i < nslot && slot[i].rooted) { Slot *s = &slot[i]; s->fill = fillfor(i, s->szi, 1); memset(s->p, s->fill, s->req); }
-			}
-			else i++;
-		}
+		/* unreachable blocks may now be gone: forget them (never required to be reclaimed) */
+		for (i = 0; i < nslot; ) { if (!live(i)) drop_slot(i); else i++; }
+	}
+	else if (kind == 5) {
+		slot[a].code = 7;
+		stoRecode(sptr(&slot[a]), 7);
 	}
 	else {
-		slot[a].code = 7;
-		stoRecode(slot[a].p, 7);
+		slot[a].interior = 1;
+		slot[a].p = sptr(&slot[a]) + slot[a].req / 2;
 	}
 	check_all();
 }
@@ -162,7 +206,7 @@ static uint64_t digest(void)
 {
 	uint64_t h = 1469598103934665603ULL;
 	Length i; int k;
-	for (k = 0; k < nslot; k++) { VH_MIX(h, (uintptr_t) sptr(&slot[k])); VH_MIX(h, slot[k].szi * 16 + slot[k].code * 2 + slot[k].rooted); }
+	for (k = 0; k < nslot; k++) { VH_MIX(h, (uintptr_t) sptr(&slot[k])); VH_MIX(h, slot[k].szi * 16 + slot[k].code * 2 + slot[k].rooted); VH_MIX(h, (slot[k].parent + 1) * 4 + slot[k].interior * 2 + slot[k].haschild); }
 	VH_MIX(h, nslot);
 	for (i = 0; i < pgMapSize; i++) VH_MIX(h, pgMap[i]);
 	for (k = 0; k < (int) FixedSizeCount; k++) {
@@ -237,7 +281,7 @@ static void sweep_add(unsigned long sz, int rooted)
 	for (i = 0; i < nslot; i++) { unsigned char *q = sptr(&slot[i]); if (!(p + s->req <= q || q + slot[i].req <= p)) fail("alloc-returned-live-memory"); }
 	if (stoSize(p) < sz) fail("size-smaller-than-requested");
 	memset(p, s->fill, s->req);
-	if (rooted) { s->p = p; s->hidden = 0; } else { s->hidden = HIDE(p); s->p = 0; }
+	s->hidden = HIDE(p); s->p = rooted ? p : 0; s->parent = -1; s->interior = 0; s->haschild = 0;
 	nslot++;
 }
 static void sweep_one(unsigned long sz)
@@ -253,7 +297,7 @@ static void sweep_one(unsigned long sz)
 	np = (unsigned char *) stoResize(slot[0].p, sz + 300);
 	common = sz;
 	for (k = 0; k < common; k++) if (np[k] != slot[0].fill) fail("resize-lost-prefix");
-	slot[0].p = np; slot[0].req = sz + 300; memset(np, slot[0].fill, sz + 300);
+	slot[0].p = np; slot[0].hidden = HIDE(np); slot[0].req = sz + 300; memset(np, slot[0].fill, sz + 300);
 	check_all();
 	path[plen++] = -2;
 	stoFree(slot[1].p); slot[1] = slot[2]; memset(&slot[2], 0, sizeof(Slot)); nslot = 2;
@@ -348,7 +392,20 @@ int main(int argc, char **argv)
 		n = nops();
 		/* enumerate op triples (a,b,c) in order, executing a then b then c; disabled ops are skipped */
 		for (t = 0; t < steps; t++) {
-			int op = ph == 0 ? a : ph == 1 ? b : c;
+			int op;
+			if (ph == 0) {
+				/* make room so that the triple is not disabled wholesale: free the oldest rooted blocks (or collect) until two slots are open */
+				int guard = 0;
+				while (nslot > maxslots - 2 && guard++ < 2 * MAXSLOT) {
+					int k, f = -1;
+					for (k = 0; k < nslot; k++) if (slot[k].rooted) { f = k; break; }
+					op = f >= 0 ? OP_FREE + f : OP_GC;
+					if (plen < 60) path[plen++] = op; else { memmove(path, path + 1, 59 * sizeof(int)); path[59] = op; }
+					apply(op);
+					done++;
+				}
+			}
+			op = ph == 0 ? a : ph == 1 ? b : c;
 			if (++ph == 3) { ph = 0; if (++c == n) { c = 0; if (++b == n) { b = 0; if (++a == n) a = 0; } } }
 			if (!enabled(op)) { skipped++; continue; }
 			if (plen < 60) path[plen++] = op; else { memmove(path, path + 1, 59 * sizeof(int)); path[59] = op; }
